@@ -579,6 +579,18 @@ def unit_ctor(sess, ctx):
     return u
 
 
+ALLTOK = ("C01", "C02", "C03", "C04", "C08", "C20")
+
+
+def failed_read_untouched(eng, me, f, n):
+    o = post_fields(eng, me)
+    try:
+        return And(I(o.cf) == n - 1, I(o.state) == f.state, I(o.sl) == f.sl, I(o.sf) == f.sf, B(o.ct) == f.ct,
+                   I(o.ic) == f.ic, I(o.data.n) == data_len(f, n))
+    except Exception:  # noqa  (a field of another kind)
+        return False
+
+
 def unit_iter_tokens(sess, ctx, active):
     """_iter_tokens(data_source): _reinitialize() establishes the invariant from
     ANY previous per-run state (C20); the loop reads one frame per iteration,
@@ -627,6 +639,10 @@ def unit_iter_tokens(sess, ctx, active):
                 eng.exec_block(s.body, fr)
             except Exception as ex:
                 from pyvc.engine import _Break, _Continue
+                if isinstance(ex, PyRaise) and gh.get("src_raised") and ex.exc == "OSError":
+                    # the source's error escapes: nothing was handed over on its account (on_yield), state untouched
+                    eng.prove("C01:failed-read:escapes-with-the-run-state-untouched", failed_read_untouched(eng, me, f, n), props=ALLTOK)
+                    raise PathEnd()
                 if isinstance(ex, _Break):
                     # leaving the loop: only after end of stream
                     eng.prove("C08:loop-exits-only-at-end-of-stream", gh["eos_seen"], props=("C08", "C04"))
@@ -635,6 +651,11 @@ def unit_iter_tokens(sess, ctx, active):
                 if not isinstance(ex, _Continue):
                     raise
             # end of an iteration that stays in the loop
+            if gh.get("src_raised"):
+                # the code swallowed the source's error (a retry): this iteration read no frame, so it must leave the run
+                # exactly where it was -- frame counter included
+                eng.prove("C01:failed-read:a-swallowed-failure-counts-no-frame", failed_read_untouched(eng, me, f, n), props=ALLTOK)
+                raise PathEnd()
             eng.prove("C08:iteration-without-eos-continues", not gh["eos_seen"], props=("C08",))
             eng.prove("C08:one-read-per-iteration", gh["reads"] == n + 1, props=("C08",))
             o = post_fields(eng, me)
@@ -710,8 +731,13 @@ def unit_iter_tokens(sess, ctx, active):
             eng.prove("C08:read-called-without-arguments", False, props=("C08",))
         eng.prove("C08:no-read-after-end-of-stream", not gh.get("eos_seen", False), props=("C08",))
         n = gh["reads"]
+        k = eng.choose(3, None, "source.read: end of stream / a frame / raises")
+        if k == 2:
+            # any source: read() may fail (device unplugged, broken pipe).  A failed read returns no frame; nothing may be
+            # delivered on its account (every statement is about the tokens DELIVERED) and the run's state is untouched
+            gh["src_raised"] = True
+            raise PyRaise("OSError", ("read failed",))
         gh["reads"] = n + 1
-        k = eng.choose(2, None, "source.read")
         if k == 0:
             gh["eos_seen"] = True
             return None
@@ -722,6 +748,9 @@ def unit_iter_tokens(sess, ctx, active):
     def on_yield(eng, v, fr, node):
         gh = eng.st.ghost
         n = gh["n"]
+        if gh.get("src_raised"):
+            eng.prove("C01:failed-read:nothing-is-delivered-on-account-of-a-failed-read", False, props=ALLTOK)
+            raise PathEnd()
         eng.prove("C08:token-yielded-before-any-further-read", gh["reads"] == n + 1, props=("C08",))
         eng.prove("C08:at-most-one-token-per-frame", gh["yields_this_iter"] == 0, props=("C08", "C04"))
         gh["yields_this_iter"] += 1
@@ -734,6 +763,33 @@ def unit_iter_tokens(sess, ctx, active):
         return None
 
     eng.yield_hook = on_yield
+
+    def on_abandon(eng, final_blocks, fr):
+        """A yield inside try/finally: the consumer may keep the token and drop the generator.  CPython finalises it
+        later -- close(), garbage collection -- possibly while the SAME tokenizer is in the middle of another run (C20:
+        'a partially consumed generator or an abandoned one').  The final blocks must leave that run's state alone."""
+        if eng.choose(2, None, "consumer resumes the generator / abandons it here (finalised during a later run)") == 0:
+            return
+        me = fr.env["self"]
+        h = eng.st.heap[me.oid]
+        later = {"_state": Int(fresh_name("later.state")), "_contiguous_token": Bool(fresh_name("later.contiguous")),
+                 "_init_count": Int(fresh_name("later.init_count")), "_silence_length": Int(fresh_name("later.silence_length")),
+                 "_start_frame": Int(fresh_name("later.start_frame")), "_current_frame": Int(fresh_name("later.current_frame")),
+                 "_data": Seq("list", Int(fresh_name("later.len")), lambda i: Opq(), new_aid())}
+        h.update(later)
+        for blk in final_blocks:
+            eng.exec_block(blk, fr)
+        same = True
+        for k_, v_ in later.items():
+            cur = h.get(k_)
+            if k_ == "_data":
+                same = same and cur is v_
+            else:
+                same = same and z3.is_expr(cur) and z3.eq(cur, v_)
+        eng.prove("C20:finalising-an-abandoned-generator-leaves-the-run-in-progress-untouched", same, props=ALLTOK)
+        raise PathEnd()
+
+    eng.genexit_hook = on_abandon
 
     def run_(eng):
         p = P()
